@@ -380,32 +380,15 @@ def rule_registration_order(ctx, facts, sites):
         early = [d for d in drivers if c.bb in cfg.reach_after(b, [d.bb])]
         ctx.check(not early, "C18-R2", "order|%s" % b.id,
                   "no driver call (%d in this function) can execute before the registration" % len(drivers), c.where())
-        # (c) registration failure -> Err return
+        # (c) registration failure -> Err return (match / if let / is_err() / `?` on the call's result)
         prov = Prov(b)
         checked = False
-        for bb in sorted(b.reachable_blocks()):
-            t = b.term(bb)
-            if t["k"] != "switch":
+        from .edit import examining_switches
+        seen_sw = set()
+        for (bb, arm, _ok_arm) in examining_switches(b, prov, c):
+            if bb in seen_sw or arm is None:
                 continue
-            kind, payload, neg = trace_bool(b, t["discr"])
-            arm = None
-            if kind == "call" and payload.matches(r"Result::<.*>::is_err$|Result::<.*>::is_ok$"):
-                org = prov.origins_op(payload.args[0])
-                if any(o[0] == "call" and o[1].bb == c.bb for o in org):
-                    tt, ft = bool_switch_targets(b, bb)
-                    if neg:
-                        tt, ft = ft, tt
-                    arm = tt if payload.matches(r"is_err$") else ft
-            else:
-                es = enum_switch(b, bb)
-                if es:
-                    place, arms, otherwise = es
-                    if not place["p"] and ty_variants(b.local_ty(place["l"])) == {"Ok": 0, "Err": 1}:
-                        org = prov.origins(place["l"])
-                        if any(o[0] == "call" and o[1].bb == c.bb for o in org):
-                            arm = arms.get(1, otherwise)
-            if arm is None:
-                continue
+            seen_sw.add(bb)
             checked = True
             region = cfg.reach_t(b, arm)
             rets = [(rb, st) for (rb, st) in return_values_r(b) if rb in region]
@@ -543,6 +526,14 @@ def rule_interrupted_nonzero(ctx, facts):
         prov = Prov(m)
         for d in m.calls_to(DRIVERS):
             ok = False
+            # decided on shapes first: with the driver's result = Err, every feasible return of main is Err (through
+            # `match`, `if let`, `?`, map / map_err ...)
+            if not d.dst["p"] and d.target is not None and m.local_ty(d.dst["l"]).startswith(("std::result::Result<", "core::result::Result<")) \
+                    and m.local_ty(0).startswith(("std::result::Result<", "core::result::Result<")):
+                rs = cfg.return_shapes(m, d.target, state={d.dst["l"]: (1, ())})
+                if rs and all(sh is not None and sh[0] == 1 for _, sh in rs):
+                    ctx.check(True, "C18-R4", "dispatch|%s" % d.name, "Err from %s makes main return Err (non-zero exit; decided on value shapes: %d return state(s))" % (d.name.split("::")[-1], len(rs)), d.where())
+                    continue
             for bb in sorted(m.reachable_blocks()):
                 es = enum_switch(m, bb)
                 if not es:
